@@ -40,7 +40,8 @@ EXTRA["C02"] = {
             "call is run on the real binary (exit 101 confirms). Bound: argument counts 0..3 (quick) / 0..4, <= 6 "
             "dispatcher steps per expression.",
     "note": "Trusted: rsx, std models, z3. Whole-program runs, Rust-stack overflow on deeply nested values, panics inside "
-            "opaquely modelled std calls, indices computed from opaque (string/list) payloads and the parser/checker "
+            "opaquely modelled std calls, indices computed from opaque (string/list) payloads (an index into an unmodelled "
+            "collection is a tainted panic candidate, confirmed natively - e.g. by a stale enum constructor - or dropped) and the parser/checker "
             "(C01) are outside the claim. Arithmetic at integer limits is decided exactly by C04.",
     "design_ref": "DESIGN.md section 6, C02",
 }
@@ -109,11 +110,12 @@ _LEX = ("the real lex / lex_between (lex.rs) executed on a symbolic source text,
 EXTRA["C01"] = {
     "text": "Bounded symbolic model checking of the lexer, where byte offsets meet chars: " + _LEX + ". Decided for every "
             "source of 0..2 (quick) / 0..3 characters: no panic obligation is satisfiable (every &s[a..b] on char "
-            "boundaries, no index or arithmetic panic) and the main loop terminates within the unwinding bound. "
+            "boundaries, no index or arithmetic panic) and the main loop terminates within the unwinding bound; the real "
+            "unescape_string (parser.rs) is then executed on every string token the lexer produced, as the parser does. "
             "Counterexamples are written to a file and run through `garden check` (exit 101 confirms).",
     "note": "Trusted: rsx, the NFA simulation (validated each run against the real lexer through `garden verif lex`), z3. "
-            "The parser, checker and formatter are recursive descent over token vectors and Rc trees and are outside "
-            "the claim.",
+            "Of the parser only unescape_string is inside the claim; the recursive descent over token vectors and Rc trees, "
+            "the checker and the formatter are outside it.",
     "design_ref": "DESIGN.md section 6, C01",
 }
 
@@ -172,9 +174,14 @@ EXTRA["C12"] = {
             "its output followed by a context (nothing, or a delimiter and one arbitrary character) is lexed by the real "
             "lexer (STRING_RE as regex-automata NFA) and the first token fed to the real unescape_string. Decided: the "
             "first token is exactly the escaped literal and unescaping returns the original string with no diagnostic. "
-            "Replay: print a list containing the string with string_repr and evaluate the printed text.",
+            "Replay: print a list containing the string with string_repr and evaluate the printed text. Part B (display "
+            "template kernel): the real Value::display is executed on String / List / Tuple / Dict values (0..2 elements quick, "
+            "0..3) with escape_string_literal and nested display calls stubbed to markers and format! modelled positionally "
+            "({:?} yields a DEBUG marker); decided: the printed text is exactly the literal template over escaped strings, "
+            "dict entries in key order.",
     "note": "Trusted: rsx, NFA simulation, z3. Float/integer printing (std formatting) and the list/tuple/dict/struct "
-            "templates around the elements, and dict key ordering, are outside this kernel.",
+            "templates for enum variants, structs and functions are outside the kernels; the list / tuple / dict templates "
+            "are part B.",
     "design_ref": "DESIGN.md section 6, C12",
 }
 
@@ -182,11 +189,12 @@ EXTRA["C03"] = {
     "text": "Bounded symbolic model checking of the infix loop of the real parse_expression (parser.rs) with "
             "token_as_binary_op, TokenStream::peek/pop, Position::merge, Expression::new and IdGenerator::next executed "
             "for real, on token streams x1 op1 x2 ... xk whose operator tokens are symbolic: all 21 operator strings "
-            "(read from the source) for chains of up to 3 (quick) / 4 operands, three operators for chains up to 6. "
+            "(read from the source) for chains of up to 3 (quick) / 4 operands, each operand an atom or a parenthesised atom "
+            "(shape forked), three operators and atom operands for chains up to 6. "
             "Decided on every path: the returned tree is the left fold ((x1 op1 x2) op2 x3)... with the operators in "
             "source order and no diagnostic, and the operator strings map to pairwise distinct kinds. Replay through "
             "`garden reftest-ast` on the generated chain.",
     "note": "Trusted: rsx, z3; the abstraction that parse_expression_no_trailing consumes one operand token and returns a "
-            "non-operator expression (parenthesised operands are atoms to this loop). Whole-file parsing is outside.",
+            "non-operator expression (for `( atom )` it consumes the three tokens). Whole-file parsing is outside.",
     "design_ref": "DESIGN.md section 6, C03",
 }
